@@ -106,6 +106,16 @@ prop('C10', 'other',
      'array allocated with object dtype in exploration.',
      'SMT (LIA) over the real address allocator + symbolic tag flow through real link code', 'DESIGN.md 3/C10')
 
+prop('C04', 'other',
+     'Real Trapezoid/BackEuler.calc_q and calc_jac and the real ImplicitIter.step executed under pysym on symbolic state, '
+     'derivatives, time constants, step size, Jacobian blocks, tolerance and per-iteration solver increments: calc_q is the rule '
+     'residual, calc_jac its block Jacobian, the right-hand side sent to the solver in every iteration is [rule residual; '
+     'g_scale*h*g] with pegged anti-windup rows overwritten, update by exactly the increment, accept => last increment within '
+     'tolerance, reject => x,y,f exactly restored, zero step refused. Step-size bounds are proved in C06.',
+     'linear solver returns an arbitrary vector (C16 covers the wrapper); fg_update and NaN test stubbed (listed); n,m <= 3, '
+     'max_iter <= 3; order of convergence (a limit) outside.',
+     'bounded symbolic execution of the real Newton step + z3 per-path queries', 'DESIGN.md 3/C04')
+
 ORDER = ['C%02d' % i for i in range(1, 21)]
 checks, na = [], []
 for pid in ORDER:
